@@ -165,6 +165,7 @@ type detOut struct {
 	class  map[string]string            // package -> ok | err | panic
 	hashes map[string]map[string]string // package -> file -> sha(bytes)+sha(text)
 	skel   map[string]string
+	order  map[string]string // package -> file paths in the order CompilePackage returned them
 	detail string
 }
 
@@ -189,7 +190,7 @@ func compileVariant(b *j5sgen.Bundle, style uint64, v *variant) *detOut {
 		}
 		mb.Order[root] = order
 	}
-	out := &detOut{class: map[string]string{}, hashes: map[string]map[string]string{}, skel: map[string]string{}}
+	out := &detOut{class: map[string]string{}, hashes: map[string]map[string]string{}, skel: map[string]string{}, order: map[string]string{}}
 	var ps *protobuild.PackageSet
 	calls := append([]int{}, v.calls...)
 	// every package is compiled at least once: append the ones the call list leaves out
@@ -223,6 +224,11 @@ func compileVariant(b *j5sgen.Bundle, style uint64, v *variant) *detOut {
 			continue
 		}
 		hs := map[string]string{}
+		var paths []string
+		for _, f := range res.Files {
+			paths = append(paths, f.Path())
+		}
+		out.order[name] = strings.Join(paths, ",")
 		for _, f := range res.Files {
 			bts, err := proto.MarshalOptions{Deterministic: true}.Marshal(protodesc.ToFileDescriptorProto(f))
 			if err != nil {
@@ -245,6 +251,9 @@ func (a *detOut) diff(b *detOut) (string, string) {
 	for _, p := range j5sreal.SortedKeys(a.class) {
 		if a.class[p] != b.class[p] {
 			return "outcome", fmt.Sprintf("package %s: %s vs %s (%s %s)", p, a.class[p], b.class[p], a.detail, b.detail)
+		}
+		if a.order[p] != b.order[p] {
+			return "file-order", fmt.Sprintf("package %s: files returned as %s vs %s", p, a.order[p], b.order[p])
 		}
 		ha, hb := a.hashes[p], b.hashes[p]
 		if len(ha) != len(hb) {
@@ -273,6 +282,7 @@ func (o *detOut) lines() []string {
 	var out []string
 	for _, p := range j5sreal.SortedKeys(o.class) {
 		out = append(out, "class "+p+" "+o.class[p])
+		out = append(out, "order "+p+" "+o.order[p])
 		for _, f := range j5sreal.SortedKeys(o.hashes[p]) {
 			out = append(out, "hash "+p+" "+f+" "+o.hashes[p][f])
 		}
@@ -338,8 +348,8 @@ func execDet(h *vh.H, op string, args []*j5sgen.Node) string {
 			report("process", "child-failed", err.Error())
 			break
 		}
-		if strings.TrimSpace(string(outb)) != want {
-			report("process", "hashes", firstDiffLine(want, strings.TrimSpace(string(outb))))
+		if strings.TrimRight(string(outb), "\n") != want {
+			report("process", "hashes", firstDiffLine(want, strings.TrimRight(string(outb), "\n")))
 			break
 		}
 	}
